@@ -24,12 +24,12 @@ LEVEL = 'proof'
 THEOREMS = [
     'CC.C19_dup_id_network', 'CC.C19_dup_id', 'CC.C19_dup_id_positions', 'CC.C19_dup_id_exception',
     'CC.C19_floating_ground', 'CC.C19_floating_ground_circuit', 'CC.C19_multi_ground', 'CC.C19_multi_ground_exception',
-    'CC.C19_negative_table', 'CC.C19_guards_are_sign_guards',
+    'CC.C19_negative_table', 'CC.C19_guards_are_sign_guards', 'CC.C19_rated_voltage_positive', 'CC.C19_only_rated_voltage_strict',
     'CC.C19_negative', 'CC.C19_negative_first', 'CC.C19_zero_passes_guards', 'CC.C19_zero_accepted',
     'CC.C19_any_bad_entry_rejects', 'CC.C19_first_bad_entry', 'CC.C19_unknown_kind', 'CC.C19_missing_field',
     'CC.C19_missing_value_key', 'CC.bindParams_missing', 'CC.bindParams_lookup',
     'CC.C19_unknown_wave', 'CC.C19_wave_checked', 'CC.C19_unknown_wave_construct',
-    'CC.C19_unknown_query', 'CC.C19_unknown_query_potential', 'CC.C19_unknown_query_wrappers',
+    'CC.C19_unknown_query', 'CC.C19_unknown_query_potential', 'CC.C19_unknown_query_wrappers', 'CC.C19_unknown_query_guarded',
     'CC.C19_stored_unaltered', 'CC.C19_param_stored',
 ]
 OPEN_STATEMENTS = []
@@ -116,12 +116,12 @@ KINDS_B = ['resistor', 'capacitor', 'inductance', 'impedance', 'lamp', 'dc_volta
            'dc_current_source', 'ac_current_source', 'short_circuit', 'conductance', 'periodic_voltage_source']
 SOLUTION_CLASSES = ['DCSolution', 'ComplexSolution', 'TimeDomainSolution', 'FrequencyDomainSolution', 'TransientSolution']
 
-def make_solution(cls, C):
+def make_solution(cls, C, w_max=4.0):
     from CircuitCalculator.Circuit import solution as sol
     if cls == 'DCSolution': return sol.DCSolution(C)
     if cls == 'ComplexSolution': return sol.ComplexSolution(C, w=1.0)
-    if cls == 'TimeDomainSolution': return sol.TimeDomainSolution(C, w_max=4.0)
-    if cls == 'FrequencyDomainSolution': return sol.FrequencyDomainSolution(C, w_max=4.0)
+    if cls == 'TimeDomainSolution': return sol.TimeDomainSolution(C, w_max=w_max)
+    if cls == 'FrequencyDomainSolution': return sol.FrequencyDomainSolution(C, w_max=w_max)
     if cls == 'TransientSolution':
         srcs = {c.id: (lambda t: np.ones(np.shape(t))) for c in C.components if 'source' in c.type}
         return sol.TransientSolution(C, tin=np.linspace(0, 1, 5), input=srcs)
@@ -232,6 +232,23 @@ def check_constructors(ctx, out):
                                 out.spec_fail(dict(op='construct', ctor=fn, param=p, fault='negative', symptom='wrong_exception'),
                                               f'{fn} with negative {p} raises {type(r[1]).__name__}', inp)
                             out.nontrivial(('negative', fn, p))
+                    elif p == 'V_ref':
+                        # a rated voltage of 0 is no boundary value but a fault: the load's admittance P / V_ref² does not exist
+                        if expect_raises(out, dict(op='construct', ctor=fn, param=p, fault='zero_rated_voltage'), f'{fn} with V_ref = 0', inp, r):
+                            if type(r[1]).__name__ != 'ValueError':
+                                out.spec_fail(dict(op='construct', ctor=fn, param=p, fault='zero_rated_voltage', symptom='wrong_exception'),
+                                              f'{fn} with V_ref = 0 raises {type(r[1]).__name__}', inp)
+                            out.nontrivial(('zero_rated_voltage', fn))
+                    elif p == 'w' and fn.startswith('periodic'):
+                        # a periodic source without a fundamental: may be rejected; if accepted it must be analysable
+                        if r[0] == 'ok':
+                            from CircuitCalculator.Circuit import transformers as tr
+                            r3 = attempt(lambda: tr.transformers[fn](r[1], 1.0, 1e-3))
+                            if r3[0] != 'ok':
+                                out.spec_fail(dict(op='construct', ctor=fn, param=p, fault='zero', symptom='accepted_but_untranslatable', exc=gc.tag(r3[1])),
+                                              f'{fn} accepts w = 0 but the component cannot be translated ({type(r3[1]).__name__})', inp)
+                            else:
+                                out.nontrivial(('zero', fn, p))
                     else:
                         if r[0] != 'ok':
                             out.spec_fail(dict(op='construct', ctor=fn, param=p, fault='zero', symptom='rejected'), f'{fn} rejects {p} = 0', inp, impl=repr(r[1]))
@@ -439,57 +456,98 @@ def check_periodic_function(ctx, out):
 
 # --------------------------------------------------------------------------- F. unknown queries
 
+QUERY_VARIANTS = ['sources', 'passive', 'complex_only', 'periodic_below_fundamental', 'periodic_w_max_zero', 'dc_only']
+
+def query_circuit(rng, variant):
+    """(component descriptions, w_max) — the variants without any frequency component are the ones where the
+    time- and frequency-domain classes iterate over an empty list of single-frequency solutions"""
+    if variant == 'sources':
+        kinds = ['resistor', 'capacitor', 'inductance', 'dc_voltage_source', 'ac_voltage_source', 'dc_current_source']
+        return gc.random_circuit(rng, kinds, exact=True, n_nodes=rng.randint(2, 4), ground=True, freqs=[1.0, 2.0], internal=True), 4.0
+    if variant == 'passive':
+        return gc.random_circuit(rng, ['resistor', 'capacitor', 'inductance', 'conductance', 'impedance'], exact=True,
+                                 n_nodes=rng.randint(2, 4), ground=True, min_sources=0, source_kinds=[]), 4.0
+    if variant == 'complex_only':
+        return gc.random_circuit(rng, ['resistor', 'capacitor', 'complex_voltage_source', 'complex_current_source'], exact=True,
+                                 n_nodes=rng.randint(2, 3), ground=True, internal=True,
+                                 source_kinds=['complex_voltage_source', 'complex_current_source']), 4.0
+    if variant in ('periodic_below_fundamental', 'periodic_w_max_zero'):
+        descs = gc.random_circuit(rng, ['resistor', 'capacitor', 'periodic_voltage_source', 'periodic_current_source'], exact=True,
+                                  n_nodes=rng.randint(2, 3), ground=True, freqs=[8.0, 16.0], internal=True,
+                                  source_kinds=['periodic_voltage_source', 'periodic_current_source'])
+        return descs, (0.0 if variant == 'periodic_w_max_zero' else 4.0)
+    if variant == 'dc_only':
+        return gc.random_circuit(rng, ['resistor', 'inductance', 'dc_voltage_source', 'dc_current_source'], exact=True,
+                                 n_nodes=rng.randint(2, 4), ground=True, internal=True,
+                                 source_kinds=['dc_voltage_source', 'dc_current_source']), 0.0
+    raise ValueError(variant)
+
 def check_queries(ctx, out):
     from CircuitCalculator.Circuit import circuit as cc
     drv = ctx.driver
     rng = ctx.rng('query')
-    n_cases = 15 if ctx.quick else 150
-    kinds = ['resistor', 'capacitor', 'inductance', 'dc_voltage_source', 'ac_voltage_source', 'dc_current_source']
+    n_cases = 18 if ctx.quick else 150
     done = 0
     tries = 0
     while done < n_cases and tries < 20 * n_cases:
         tries += 1
         if ctx.time_left() < 15: out.notes.append('query faults cut by budget'); break
-        descs = gc.random_circuit(rng, kinds, exact=True, n_nodes=rng.randint(2, 4), ground=True, freqs=[1.0, 2.0], internal=True)
+        variant = QUERY_VARIANTS[tries % len(QUERY_VARIANTS)]
+        descs, w_max = query_circuit(rng, variant)
         comps = [gc.build(d) for d in descs]
         C = cc.Circuit(comps)
         labels = {n for c in comps for n in c.nodes}
         ids = {c.id for c in comps}
+        branch_ids = {c.id for c in comps if c.type != 'ground'}
         sols = {}
         for cls in SOLUTION_CLASSES:
-            r = attempt(lambda: make_solution(cls, C))
+            r = attempt(lambda: make_solution(cls, C, w_max))
             if r[0] == 'ok': sols[cls] = r[1]
-        if 'DCSolution' not in sols:
+        if not sols:
             continue
         done += 1
+        out.count('query_variant:' + variant)
         unknown = ['nope', '', ' ', 'gnd ', sorted(ids)[0] + "'", sorted(labels)[0] + '_']
         node_only = [n for n in labels if n not in ids][:2]       # a node label is no component id
         id_only = [i for i in ids if i not in labels][:2]         # a component id is no node label
-        for cls, S in sols.items():                              # the reference node itself is a known node
-            r = attempt(lambda: S.get_potential(C.ground_node))
-            out.evaluations += 1
-            if r[0] != 'ok':
-                out.spec_fail(dict(op='query', cls=cls, accessor='get_potential', symptom='reference_rejected'),
-                              f'{cls}.get_potential(<reference node>) raises', dict(cls=cls, components=gc.pretty(descs)), impl=repr(r[1]))
+        ground_ids = [c.id for c in comps if c.type == 'ground' and c.id not in labels]
+        def n_freq(S):
+            w_ = getattr(S, 'w', None)
+            try: return len(w_)
+            except TypeError: return None
         for cls, S in sols.items():
-            for acc in ('get_potential', 'get_voltage', 'get_current', 'get_power'):
-                names = list(unknown) + (id_only if acc == 'get_potential' else node_only)
+            # known identifiers keep working: the reference node, every node, every non-ground component
+            for acc, names in (('get_potential', [C.ground_node] + sorted(labels)[:2]), ('get_voltage', sorted(branch_ids)[:2]),
+                               ('get_current', sorted(branch_ids)[:2])):
                 for name in names:
-                    if (acc == 'get_potential' and name in labels) or (acc != 'get_potential' and name in ids):
+                    r = attempt(lambda: getattr(S, acc)(name))
+                    out.evaluations += 1
+                    if r[0] != 'ok':
+                        out.spec_fail(dict(op='query', cls=cls, accessor=acc, symptom='known_rejected', reference=(name == C.ground_node and acc == 'get_potential')),
+                                      f'{cls}.{acc}({name!r}) raises for a known identifier', dict(cls=cls, variant=variant, components=gc.pretty(descs)), impl=repr(r[1]))
+        for cls, S in sols.items():
+            empty = cls in ('TimeDomainSolution', 'FrequencyDomainSolution') and n_freq(S) == 0
+            if empty: out.count('query_empty_frequency_list:' + cls)
+            for acc in ('get_potential', 'get_voltage', 'get_current', 'get_power'):
+                # unknown strings; a component id asked as a node / a node label asked as a component; the ground
+                # component's id is the id of no branch
+                names = list(unknown) + (id_only if acc == 'get_potential' else node_only + ground_ids)
+                for name in names:
+                    if (acc == 'get_potential' and name in labels) or (acc != 'get_potential' and name in branch_ids):
                         continue
                     r = attempt(lambda: getattr(S, acc)(name))
                     out.evaluations += 1; out.count('query:' + cls)
-                    inp = dict(cls=cls, accessor=acc, name=name, components=gc.pretty(descs))
+                    inp = dict(cls=cls, accessor=acc, name=name, variant=variant, w_max=w_max, components=gc.pretty(descs))
                     if r[0] == 'ok':
-                        out.spec_fail(dict(op='query', cls=cls, accessor=acc, symptom='returns_value'),
-                                      f'{cls}.{acc}({name!r}) returns a value for an unknown identifier', inp, impl=repr(r[1])[:200])
+                        out.spec_fail(dict(op='query', cls=cls, accessor=acc, symptom='returns_value', empty_frequency_list=bool(empty)),
+                                      f'{cls}.{acc}({name!r}) returns a value for an unknown identifier ({variant})', inp, impl=repr(r[1])[:200])
                     else:
-                        out.nontrivial(('query', cls, acc))
+                        out.nontrivial(('query', cls, acc, variant))
         # correspondence: the DC / complex wrappers on the same unknown identifiers
         if drv is not None:
             for cls, mode in (('DCSolution', 'dc'), ('ComplexSolution', 'rms')):
                 S = sols.get(cls)
-                if S is None or not gc.finite_net(S._solution.network): continue
+                if S is None or not gc.finite_net(S._solution.network) or not S._solution.network.branches: continue
                 net = S._solution.network
                 x_py = [core.qc(z) for z in np.asarray(S._solution._solution_vector, dtype=complex)]
                 extra = [u for u in unknown if u not in labels and u not in ids]
